@@ -26,6 +26,7 @@ const (
 	EBool
 	ENil
 	EPtr // some non-nil pointer; Tok identifies the allocation
+	EAgg // a struct value whose fields are tracked
 )
 
 type EVal struct {
@@ -33,6 +34,7 @@ type EVal struct {
 	I   int64
 	B   bool
 	Tok ssa.Value
+	Agg *map[int]EVal // EAgg: field index -> value (struct values built and taken apart locally)
 }
 
 type Evaluator struct {
@@ -53,11 +55,20 @@ type Evaluator struct {
 type evalEnv struct {
 	vals   map[ssa.Value]EVal
 	mem    map[ssa.Value]EVal // local allocs
+	fmem   map[fieldKey]EVal  // fields of local struct allocs
 	visits map[*ssa.BasicBlock]int
 }
 
+type fieldKey struct {
+	al ssa.Value
+	i  int
+}
+
 func (e *evalEnv) clone() *evalEnv {
-	n := &evalEnv{vals: map[ssa.Value]EVal{}, mem: map[ssa.Value]EVal{}, visits: map[*ssa.BasicBlock]int{}}
+	n := &evalEnv{vals: map[ssa.Value]EVal{}, mem: map[ssa.Value]EVal{}, fmem: map[fieldKey]EVal{}, visits: map[*ssa.BasicBlock]int{}}
+	for k, v := range e.fmem {
+		n.fmem[k] = v
+	}
 	for k, v := range e.vals {
 		n.vals[k] = v
 	}
@@ -78,7 +89,7 @@ func (ev *Evaluator) Run(f *ssa.Function) {
 	if len(f.Blocks) == 0 {
 		return
 	}
-	env := &evalEnv{vals: map[ssa.Value]EVal{}, mem: map[ssa.Value]EVal{}, visits: map[*ssa.BasicBlock]int{}}
+	env := &evalEnv{vals: map[ssa.Value]EVal{}, mem: map[ssa.Value]EVal{}, fmem: map[fieldKey]EVal{}, visits: map[*ssa.BasicBlock]int{}}
 	ev.runBlock(f.Blocks[0], nil, env)
 }
 
@@ -175,6 +186,28 @@ func (ev *Evaluator) runBlock(b, from *ssa.BasicBlock, env *evalEnv) {
 				if al, ok := x.X.(*ssa.Alloc); ok {
 					if v, ok := env.mem[al]; ok {
 						env.vals[x] = v
+					} else if st, isStruct := al.Type().Underlying().(*types.Pointer).Elem().Underlying().(*types.Struct); isStruct {
+						// the whole struct is read: gather the fields written so far
+						agg := map[int]EVal{}
+						for i := 0; i < st.NumFields(); i++ {
+							if fv, ok := env.fmem[fieldKey{al, i}]; ok {
+								agg[i] = fv
+							}
+						}
+						if len(agg) > 0 {
+							env.vals[x] = EVal{K: EAgg, Agg: &agg}
+						}
+					}
+				}
+				if fa, ok := x.X.(*ssa.FieldAddr); ok {
+					if al, ok := fa.X.(*ssa.Alloc); ok {
+						if v, ok := env.fmem[fieldKey{al, fa.Field}]; ok {
+							env.vals[x] = v
+						} else if whole, ok := env.mem[al]; ok && whole.K == EAgg {
+							if fv, ok := (*whole.Agg)[fa.Field]; ok {
+								env.vals[x] = fv
+							}
+						}
 					}
 				}
 			}
@@ -199,6 +232,17 @@ func (ev *Evaluator) runBlock(b, from *ssa.BasicBlock, env *evalEnv) {
 		case *ssa.Store:
 			if al, ok := x.Addr.(*ssa.Alloc); ok {
 				env.mem[al] = get(x.Val)
+			}
+			if fa, ok := x.Addr.(*ssa.FieldAddr); ok {
+				if al, ok := fa.X.(*ssa.Alloc); ok {
+					env.fmem[fieldKey{al, fa.Field}] = get(x.Val)
+				}
+			}
+		case *ssa.Field:
+			if a := get(x.X); a.K == EAgg {
+				if fv, ok := (*a.Agg)[x.Field]; ok {
+					env.vals[x] = fv
+				}
 			}
 		case *ssa.If:
 			c := get(x.Cond)
